@@ -1,6 +1,7 @@
 SPECIFICATION Spec
 CONSTANTS
   NCallers = 3
+  RecyclesWrappers = FALSE
   OnceIsNilCheck = FALSE
   Ns = {2, 3}
 CHECK_DEADLOCK FALSE
